@@ -8,8 +8,19 @@ TypeOK == /\ S.cur \in 0..H.concMax /\ S.conc >= 1
           /\ \A j \in Jobs : S.jwg[j] \in 0..1
           /\ \A n \in Nodes : Len(S.nch[n]) <= 1
 NoViolation == H.viol = {}                       \* checks evaluated at the returns of client calls and at worker-function entries
-C01_AtMostOnce == \A j \in Jobs : H.enters[j] <= 1
+C01_AtMostOnce == S.crashes = 0 => \A j \in Jobs : H.enters[j] <= 1       \* (after a crash an unacknowledged job runs again: at least once)
 C01_NoRejected == \A j \in H.rejected : H.enters[j] = 0
+\* batches: the stream is closed at most once; at the end every settled batch has its stream closed and its counter at zero
+C08_CloseOnce == \A b \in Batches : S.gclosed[b] <= 1 /\ S.gcount[b] >= 0 /\ S.gwg[b] >= 0
+C08_Closes == ~ENABLED Next => \A b \in S.bhd : (\A j \in ItemsOf(b) : Settled(j)) => S.gcount[b] = 0 /\ (WK # "plain" => S.gclosed[b] = 1)
+C07_Metrics == S.mfail <= Cardinality({j \in Jobs : H.exits[j] >= 1 /\ Outcome[j] # "ok"})
+\* acknowledging adapter (every state is a crash point, so these are state invariants):
+\* acknowledged only after the worker function returned for the job; only ids the adapter holds; nothing accepted is ever lost
+C11_AckAfter == \A j \in S.acked : H.exits[j] >= 1
+C11_AckIssued == S.badack = 0
+C11_NoLoss == Adapter => \A j \in H.accepted : j \in Range(S.q) \/ (\E u \in S.unacked : u[2] = j) \/ j \in S.acked \/ j \in H.purged
+\* recovery: at the end (no step possible) everything accepted has been processed completely, unless an acknowledgement was refused
+C11_Recovery == (Adapter /\ ~ENABLED Next /\ S.ws = "running" /\ ~(\E f \in Faults : f[1] = "ack")) => \A j \in H.accepted : j \in S.acked \/ j \in H.purged
 C02_Bound == Cardinality(Inflight) <= H.concMax
 C09_PauseBound == H.epoch = "pause" => H.pauseStarts <= H.concMax
 C17_Bounds == S.cur >= 0 /\ S.cur <= H.concMax /\ S.mcomp <= S.msucc + S.mfail
@@ -22,7 +33,7 @@ NodeOwnership == /\ \A i, k \in DOMAIN S.idle : i # k => S.idle[i] # S.idle[k]
 \* at most one live dispatcher may dispatch
 OneLoop == Cardinality({d \in Disps : S.pc[d] \notin {"unborn", "dead", "loop.exit"} /\ MayDispatch(d)}) <= 1
 Rank(s) == CASE s = "created" -> 0 [] s = "queued" -> 1 [] s = "processing" -> 2 [] s = "finished" -> 3 [] s = "closed" -> 4
-C16_Forward == [][\A j \in Jobs : Rank(S.jst'[j]) >= Rank(S.jst[j])]_vars
+C16_Forward == [][Adapter \/ \A j \in Jobs : Rank(S.jst'[j]) >= Rank(S.jst[j])]_vars      \* (an adapter entry is parsed into a new job object at every delivery)
 
 \* ---- finite-trace liveness: a state without successor must be a legitimate end
 AllDone == \A c \in Clients : S.pc[c] = "done"
